@@ -38,6 +38,11 @@ TEXT = {
         note="No sockets: scripted HTTP client. Phase granularity is complete because each phase performs at most one cache operation.",
         technique="exhaustive schedule enumeration (cooperative scheduler over the real code) + bounded-exhaustive input table",
     ),
+    "C15": dict(
+        level="Bounded-exhaustive model checking of the customize path: every rule set of one or two rules from the selection alphabet is evaluated by the real manager inside real syncs; the related map of the logged sync and finalize requests is compared with an independent evaluation of the rules, plus error-not-silent-choice, at-most-one customize call per UID+generation, and wake-up agreement clauses.",
+        note="Trusts sim + controlled informers. Over-notification (waking a parent for an object it does not list) is allowed by the statement.",
+        technique="bounded-exhaustive enumeration of rule sets x cluster contents on the real code, independent rule evaluator as oracle",
+    ),
 }
 
 PENDING_REASON = "check not built yet in this session (planned in DESIGN.md §4); no claim is made until its check runs clean on the unchanged tree"
